@@ -113,6 +113,11 @@ def parse_xml(text):
                        "fifths": int(itxt(m, "attributes/key/fifths", "99")), "mode": itxt(m, "attributes/key/mode", ""),
                        "beats": int(itxt(m, "attributes/time/beats")), "beattype": int(itxt(m, "attributes/time/beat-type")), "notes": notes})
         out["parts"].append({"id": part.get("id", ""), "measures": ms})
+    # part ids are arbitrary texts (often memory addresses): renamed by order of first appearance, which keeps
+    # exactly what matters about them - which are equal and which differ
+    ren = {}
+    for x in out["partlist"] + out["parts"]:
+        x["id"] = ren.setdefault(x["id"], "id%d" % (len(ren) + 1)) if x["id"] != "" else ""
     return out
 
 
